@@ -12,7 +12,7 @@ D8 duplicates only as gated probes, one in STALL_PROBE_ONE_IN_N;
 D9 send-failure discipline: every caller of send_connection_batch resets the link on Err (optimistic registration is only sound then).
 """
 from ..absint import AbsInt, Bool, Entry, Num
-from ..ctx import CONN, is_call, is_field, is_iter_next, result_arms, sname
+from ..ctx import is_awaited_result_of, CONN, is_call, is_field, is_iter_next, result_arms, sname
 from ..expr import show, walk
 from ..pathcond import PathA, calls_to, field_stores
 from .route import FWD, HSP, routing_sources
@@ -505,7 +505,7 @@ def d9_send_failure_discipline(ctx):
             marks = [(mb, mt) for (mb, mt) in calls_to(f, stable=CONN + "::mark_for_recovery")
                      if _same_link(pa.fa.val_operand(mt["args"][0], (mb, len(f.blocks[mb]["stmts"]))), conn)]
             # the Err arm of matching the awaited result of this very future
-            arms = result_arms(f, pa.fa, lambda e: any(is_call(x, stable=SCB) and x[3] == (bb,) for x in walk(e)))
+            arms = result_arms(f, pa.fa, lambda e: is_awaited_result_of(e, SCB, bb))
             arms = [(sbb, a) for (sbb, a) in arms if "Err" in a]
             if not arms:
                 ctx.chk.ob("D9", "%s inspects the result of the batch send" % sname(st), False, "the Result of send_connection_batch is never matched",
